@@ -2188,3 +2188,180 @@ func ruleSORT4(c *Ctx) []Ob {
 	}
 	return softenUndecided(o.list)
 }
+
+// capacityHintOnly: fn returns one integer, has no store effects, and at every static call site
+// in the library that integer is used only as the capacity of a make([]T, 0, n) - directly or as
+// the result of another such function. Whatever it computes cannot change what an operation returns.
+func (c *Ctx) capacityHintOnly(fn *ssa.Function, depth int) bool {
+	if depth > 2 || fn == nil || fn.Parent() != nil || fn.Signature.Results().Len() != 1 || !isIntType(fn.Signature.Results().At(0).Type()) {
+		return false
+	}
+	if c.eff(fn)&(EffDocWrite|EffTxSet|EffTxDelete|EffCursor|EffIdxAdd|EffIdxRemove) != 0 {
+		return false
+	}
+	sites := c.staticCallers(fn)
+	if len(sites) == 0 {
+		return false
+	}
+	for _, cs := range sites {
+		v, ok := cs.(ssa.Value)
+		if !ok {
+			return false
+		}
+		refs := realReferrers(v)
+		if len(refs) == 0 {
+			return false
+		}
+		for _, r := range refs {
+			switch x := r.(type) {
+			case *ssa.MakeSlice:
+				if x.Cap != v || x.Len == v {
+					return false
+				}
+				if k, isK := constInt(x.Len); !isK || k != 0 {
+					return false
+				}
+			case *ssa.Return:
+				if !c.capacityHintOnly(x.Parent(), depth+1) {
+					return false
+				}
+			default:
+				return false
+			}
+		}
+	}
+	return true
+}
+
+// ---------------------------------------------------------------- WIN3
+
+// WIN3: the window is cut in one place. The skip and the limit of a query are applied by
+// the window node, which sits behind the filter (and behind the sort): a document counts
+// against the skip only after it has passed the criteria. Outside the builder methods of
+// package query, the values of Query.GetSkip / Query.GetLimit are therefore used only
+// (a) in comparisons (whether a window node is needed, whether the limit is 1), (b) as the
+// fields of a freshly built window node, and (c) in the counter shortcut of Count (the
+// function that reads the collection's size). A skip handed to the scan ("drop the first n
+// index entries without loading them") or arithmetic on it elsewhere moves the start of the
+// window in front of a filter that still rejects entries: the window starts too early.
+func ruleWIN3(c *Ctx) []Ob {
+	o := newObs(c, "WIN3")
+	n := 0
+	for _, fn := range c.LibFuncs {
+		if c.pkgRel(fn) != "" {
+			continue
+		}
+		// the counter shortcut: a function that loads the Size of the collection record
+		readsSize := false
+		for f := range c.staticReach(rootFunc(fn)) {
+			for _, b := range f.Blocks {
+				for _, in := range b.Instrs {
+					if u, ok := in.(*ssa.UnOp); ok && u.Op == token.MUL {
+						if _, isSize := c.isSizeAddr(u.X); isSize {
+							readsSize = true
+						}
+					}
+				}
+			}
+		}
+		k := 0
+		hintOnly := c.capacityHintOnly(rootFunc(fn), 0)
+		allCalls(fn, func(ci ssa.CallInstruction) {
+			call, ok := ci.(*ssa.Call)
+			if !ok {
+				return
+			}
+			g := staticCallee(call)
+			if g == nil || c.pkgRel(c.declared(g)) != "query" || (g.Name() != "GetSkip" && g.Name() != "GetLimit") {
+				return
+			}
+			n++
+			k++
+			key := fmt.Sprintf("%s/use of Query.%s #%d", c.fname(fn), g.Name(), k)
+			if hintOnly {
+				o.add(OK, key, relPath(c, call.Pos()), "inside a function whose result is only ever the capacity of a make([]T, 0, n): it cannot change a result")
+				return
+			}
+			bad := ""
+			var follow func(v ssa.Value, depth int)
+			follow = func(v ssa.Value, depth int) {
+				if depth > 4 || bad != "" {
+					return
+				}
+				for _, r := range realReferrers(v) {
+					switch x := r.(type) {
+					case *ssa.BinOp:
+						switch x.Op {
+						case token.EQL, token.NEQ, token.LSS, token.LEQ, token.GTR, token.GEQ:
+							// a test
+						default:
+							if !readsSize {
+								bad = "arithmetic (" + x.Op.String() + ") at " + relPath(c, x.Pos())
+							}
+						}
+					case *ssa.Store:
+						if x.Val != v {
+							continue
+						}
+						_, _, named := fieldOfAddr(x.Addr)
+						if named != nil && c.nodeKind(named) == "window" {
+							continue
+						}
+						if al, isAlloc := x.Addr.(*ssa.Alloc); isAlloc {
+							// a local variable: follow its loads
+							for _, lr := range realReferrers(al) {
+								if u, ok := lr.(*ssa.UnOp); ok && u.Op == token.MUL {
+									follow(u, depth+1)
+								}
+							}
+							continue
+						}
+						what := "a store"
+						if named != nil {
+							what = "field of " + named.Obj().Name()
+						}
+						bad = what + " at " + relPath(c, x.Pos())
+					case *ssa.Phi:
+						follow(x, depth+1)
+					case *ssa.Return:
+						if !readsSize {
+							bad = "returned at " + relPath(c, x.Pos())
+						}
+					case ssa.CallInstruction:
+						// handed to another function: only the constructor of a window node may take it
+						tgt := x.Common().StaticCallee()
+						okCtor := false
+						if tgt != nil && c.IsLib(c.declared(tgt)) {
+							res := tgt.Signature.Results()
+							for i := 0; i < res.Len(); i++ {
+								if pt, ok := res.At(i).Type().Underlying().(*types.Pointer); ok {
+									if nn, ok := pt.Elem().(*types.Named); ok && c.nodeKind(nn) == "window" {
+										okCtor = true
+									}
+								}
+							}
+						}
+						if !okCtor && !readsSize {
+							bad = "an argument of " + c.calleeName(x) + " at " + relPath(c, x.Pos())
+						}
+					case *ssa.If, *ssa.DebugRef:
+					case *ssa.Convert:
+						follow(x, depth+1)
+					case *ssa.MakeInterface:
+						bad = "converted to an interface at " + relPath(c, x.Pos())
+					}
+				}
+			}
+			follow(call, 0)
+			if bad == "" {
+				o.add(OK, key, relPath(c, call.Pos()), "used in tests, as a field of the window node, or in the counter shortcut only")
+			} else {
+				o.add(VIOLATED, key, relPath(c, call.Pos()), "the query's %s is used as %s: skip and limit are applied by the window node behind the filter and the sort; applying them anywhere else (dropping the first n index entries in the scan, adjusting the skip the node gets) counts documents against the window that the filter goes on to reject, so the window starts too early or holds too many documents", strings.TrimPrefix(g.Name(), "Get"), bad)
+			}
+		})
+	}
+	if n == 0 {
+		o.add(UNDECIDED, "skip/limit", "-", "no use of Query.GetSkip / Query.GetLimit found in the root package")
+	}
+	return o.list
+}
